@@ -226,6 +226,24 @@ def check_case(acc, kind, arch, params, full=True, st=None, history=None):
                 if not within(g, exp, expr):
                     bad("gradient:batch-with-several-bases-is-not-sum-of-per-sample-gradients", g, exp, detail=dict(rows=rows_ if len(rows_) <= 4 else "all bases"))
                     return
+        # (b3) large batches: many rows share one rotated basis (blocked / chunked evaluation paths)
+        if full and n <= 2:
+            for sizes_ in ((300,), (520, 190)) if kind != "positive" else ((300,),):
+                rows_ = []
+                for gi, cnt in enumerate(sizes_):
+                    b = bases[(4 * gi + 1) % len(bases)]
+                    rows_ += [(((i * D) // cnt + gi) % D, b) for i in range(cnt)]  # outcome blocks, not a periodic pattern
+                smp = space[[r[0] for r in rows_]]
+                cnts = {}
+                for r in rows_:
+                    cnts[r] = cnts.get(r, 0) + 1
+                exp = nsum([nscale(J[r[0]][bidx[r[1]]], c_) for r, c_ in cnts.items()])
+                expr = nsum([nscale(Jr[r[0]][bidx[r[1]]], c_) for r, c_ in cnts.items()])
+                g = split_named(st, call(st.gradient, smp) if kind == "positive" else call(st.gradient, smp, barr([r[1] for r in rows_])))
+                acc.count("batch_gradients")
+                if not within(g, exp, expr):
+                    bad("gradient:large-batch-is-not-sum-of-per-sample-gradients", g, exp, detail=dict(rows_per_basis=list(sizes_)))
+                    return
         # (c) exact gradients on datasets = gradient of the full NLL (positive phase + exact negative phase)
         for r in (1, 2, 3):
             for rows in itertools.combinations_with_replacement(range(4), r):
